@@ -172,8 +172,63 @@ def contract_variants(clsname, meth, names):
     table = REG_CONTRACTS if clsname == 'Registers' else ARM_CONTRACTS
     c = table.get(meth)
     if c is None:
+        c = DERIVED.get((clsname, meth))
+    if c is None:
         return [('', {})]
     return [('', {n: v for n, v in c.items() if n in names})]
+
+
+DERIVED = {}
+
+
+def derive_private_contracts(repo):
+    """A private helper (`_name`) of ArmV6 / Registers that is only ever called with its caller's own contracted parameters
+    (or constants) inherits those contracts: extracting a block into a helper must not lose what is known about its inputs."""
+    import ast
+    DERIVED.clear()
+    for clsname in ('ArmV6', 'Registers'):
+        ci = repo.cls(clsname)
+        sites = {}
+        for fi in ci.methods.values():
+            names = fi.params()[1:]
+            variants = contract_variants(clsname, fi.name, names)
+            known = {}
+            for _, pr in variants:
+                for n, v in pr.items():
+                    known[n] = join(known.get(n), v) if n in known else v
+            for node in ast.walk(fi.node):
+                if isinstance(node, ast.Call) and isinstance(node.func, ast.Attribute) and ast.unparse(node.func.value) == 'self' \
+                        and node.func.attr.startswith('_') and not node.func.attr.startswith('__'):
+                    h = ci.find_method(node.func.attr)
+                    if h is None:
+                        continue
+                    hp = h.params()
+                    static = any(ast.unparse(d) == 'staticmethod' for d in h.node.decorator_list)
+                    hp = hp if static else hp[1:]
+                    got = {}
+                    for k, a in enumerate(node.args):
+                        if k >= len(hp):
+                            break
+                        if isinstance(a, ast.Name) and a.id in known:
+                            got[hp[k]] = known[a.id]
+                        elif isinstance(a, ast.Constant) and isinstance(a.value, (int, bool)):
+                            got[hp[k]] = Iv(int(a.value), int(a.value))
+                    sites.setdefault(node.func.attr, []).append(got)
+        for meth, lst in sites.items():
+            table = REG_CONTRACTS if clsname == 'Registers' else ARM_CONTRACTS
+            if meth in table:
+                continue
+            common = set(lst[0])
+            for g in lst[1:]:
+                common &= set(g)
+            if common:
+                d = {}
+                for n in common:
+                    v = None
+                    for g in lst:
+                        v = g[n] if v is None else join(v, g[n])
+                    d[n] = v
+                DERIVED[(clsname, meth)] = d
 
 
 def joint_for(fr, abstract):
@@ -203,6 +258,7 @@ class Context:
         self.eff = eff
         self.fa = fa
         self.types = MachinePolicy(repo, None).registers_typing()
+        derive_private_contracts(repo)
         self._ret = {}
         self._busy = set()
 
